@@ -259,6 +259,10 @@ fn judge_float<T: LFloat, const FMT: u128, const NOSEP: u128>(cx: &mut Cx, d: &D
                 let sign = if parts.neg { k.sign_bit() } else { 0 };
                 if k.is_nan(b) {
                     viol(cx, "C15", "numeric-input-gave-nan", d, &fo.name, ty, input, fmt_rf(&rc));
+                } else if matches!(x, oracle::Exact::Zero) && (b & k.abs_mask()) == 0 && (b & k.sign_bit()) != sign {
+                    // C15: the sign of a zero literal ('-0', '-0.0e5', '-0e-999') must survive parsing
+                    viol(cx, "C15", "sign-of-zero-lost-on-parse", d, &fo.name, ty, input, fmt_rf(&rc));
+                    viol(cx, "C12", "accepted-wrong-value", d, &fo.name, ty, input, format!("sign of zero: observed {}", fmt_rf(&rc)));
                 } else if (b & k.sign_bit()) != sign || !oracle::is_correctly_rounded(k, &x, b & k.abs_mask()) {
                     let exp = oracle::round_nearest_even(k, &x) | sign;
                     viol(cx, "C12", "accepted-wrong-value", d, &fo.name, ty, input, format!("expected {exp:#x} observed {}", fmt_rf(&rc)));
@@ -429,7 +433,15 @@ fn judge_int<T: LInt, const FMT: u128, const NOSEP: u128>(cx: &mut Cx, d: &Desc,
                 let body: &[u8] = if input[0] == b'+' || input[0] == b'-' { &input[1..*n] } else { &input[..*n] };
                 let just_prefix = d.prefix != 0 && body.len() == 2 && body[0] == b'0' && body[1].to_ascii_lowercase() == d.prefix.to_ascii_lowercase();
                 let sign_only = w.split().1 == 0 && body.len() < *n && (body.is_empty() || just_prefix) || (w.split().1 == 0 && just_prefix);
-                let class = if sign_only { "prefix-not-complete:partial-consumed-only-sign-or-base-prefix" } else { "prefix-not-complete" };
+                // the recorded findings of this class all concern a consumed prefix without any non-zero digit (value 0);
+                // a non-zero value whose consumed prefix the complete parser rejects is a different matter
+                let class = if sign_only {
+                    "prefix-not-complete:partial-consumed-only-sign-or-base-prefix"
+                } else if w.split().1 == 0 {
+                    "prefix-not-complete:zero-value"
+                } else {
+                    "prefix-not-complete"
+                };
                 viol(cx, "C11", class, d, "", ty, input, format!("partial={} complete(prefix)={}", fmt_ri(&rp), fmt_ri(&pre)));
             }
         }
@@ -871,6 +883,27 @@ fn run_format<const FMT: u128, const NOSEP: u128>(cx: &mut Cx, d: &Desc, idx: us
         all_strings(&alpha, maxlen, &mut inputs);
         for _ in 0..ntok {
             inputs.push(token_float(&mut rng, d, &fo.p));
+        }
+        // zero literals whose exponent is far outside the fast-path window, both signs
+        for z in [&b"0"[..], b"0.0", b"00.000", b".0"] {
+            for e in [&b""[..], b"5", b"-5", b"-30", b"40", b"-999", b"999"] {
+                for sign in [&b""[..], b"-", b"+"] {
+                    let mut t = sign.to_vec();
+                    t.extend_from_slice(z);
+                    if !e.is_empty() {
+                        t.push(fo.p.exp);
+                        t.extend(e.iter().map(|&c| if c == b'9' && d.eradix() < 10 { b'1' } else if c.is_ascii_digit() && (c - b'0') as u32 >= d.eradix() { b'1' } else { c }));
+                    }
+                    if z.contains(&b'.') && fo.p.point != b'.' {
+                        for c in t.iter_mut() {
+                            if *c == b'.' {
+                                *c = fo.p.point;
+                            }
+                        }
+                    }
+                    inputs.push(t);
+                }
+            }
         }
         long_floats(&mut rng, d, &fo.p, cx.thorough, &mut inputs);
         if cx.small {
